@@ -147,9 +147,19 @@ impl Prop for C01 {
             if !ctx.rng.chance(1, 5) {
                 gen::observer_config(&mut ctx.rng, &mut cfg);
             }
-            let input = gen_input(&mut ctx.rng, enc, 30);
+            let mut input = gen_input(&mut ctx.rng, enc, 30);
             let all_cuts = i % 40 == 0;
-            let schedules: Vec<Vec<usize>> = if all_cuts { (0..=input.len()).map(|c| vec![c]).collect() } else { vec![gen::random_cuts(&mut ctx.rng, input.len())] };
+            let big = !all_cuts && ctx.rng.chance(1, 20000) && !input.is_empty();
+            if big {
+                // a few ~1 MiB documents
+                let k = (1 << 20) / input.len() + 1;
+                input = input.repeat(k);
+                ctx.count("documents_of_1MiB");
+            }
+            let schedules: Vec<Vec<usize>> = if big {
+                let k = ctx.rng.range(1000, 70000);
+                vec![(1..input.len()).filter(|x| x % k == 0).collect()]
+            } else if all_cuts { (0..=input.len()).map(|c| vec![c]).collect() } else { vec![gen::random_cuts(&mut ctx.rng, input.len())] };
             for cuts in schedules {
                 ctx.eval();
                 match check(&cfg, &input, &cuts) {
